@@ -360,6 +360,21 @@ class Fn:
     self.probe = probe
     self.rename = rename
     self.recommends = list(recommends)
+    self.contract_only = contract_only  # callee proved in another unit: signature + contract only (external_body)
+    if contract_only:
+      self.probe = False
+
+
+def as_contract(fn):
+  """copy of a Fn spec that emits only signature + contract (callee proved in its own unit)"""
+  import copy
+  c = copy.copy(fn)
+  c.contract_only = True
+  c.probe = False
+  c.loops = {}
+  c.hints = []
+  c.extra = []
+  return c
 
 
 class Item:
@@ -387,6 +402,7 @@ class Gen:
     self.drops = []
     self.functions = []  # [{"fn":..., "file":..., "line":..., "clauses":[names]}]
     self.obligations = []  # named clauses [{"name","fn","kind"}]
+    self.assumed_callees = []
 
   def tag(self, d):
     self.tags.append(d)
@@ -454,7 +470,7 @@ def _loop_sites(mask):
   return res
 
 
-def _clause_lines(gen, clauses, fnname, kind, indent="    "):
+def _clause_lines(gen, clauses, fnname, kind, indent="    ", register=True):
   """turn [(name, text)] into text with tags; returns list of (text, origin-int)"""
   out = []
   for c in clauses:
@@ -464,7 +480,7 @@ def _clause_lines(gen, clauses, fnname, kind, indent="    "):
       name, text = c
     full = "%s.%s" % (fnname, name) if name else None
     t = gen.tag({"kind": kind, "fn": fnname, "name": full, "text": " ".join(text.split())})
-    if name and kind in ("ensures", "invariant", "hint", "loop_ensures"):
+    if register and name and kind in ("ensures", "invariant", "hint", "loop_ensures"):
       gen.obligations.append({"name": full, "fn": fnname, "kind": kind, "text": " ".join(text.split())})
     out.append((indent + text.strip().rstrip(",") + ",\n", t))
   return out
@@ -513,10 +529,16 @@ def extract_fn(gen, f, probe=False):
     pass
   if ens:
     out.insert(len(out.s), "    ensures\n", gen.tag({"kind": "kw", "fn": qual}))
-    for text, t in _clause_lines(gen, ens, qual, "ensures", "      "):
+    for text, t in _clause_lines(gen, ens, qual, "ensures", "      ", register=not f.contract_only):
       out.insert(len(out.s), text, t)
   if f.decreases:
     out.insert(len(out.s), "    decreases %s\n" % f.decreases, gen.tag({"kind": "kw", "fn": qual}))
+  if f.contract_only:
+    out.s = "  #[verifier::external_body]\n" + out.s
+    out.o = [sigline] * len("  #[verifier::external_body]\n") + out.o
+    out.insert(len(out.s), "  { unimplemented!() }\n", sigline)
+    gen.assumed_callees.append({"fn": qual, "file": f.file, "line": sigline, "note": "contract assumed here; proved on the real body in its own unit"})
+    return out, qual
   # ---- body rewrites
   rewrite(body, gen.drops, where, f.extra)
   # ---- loops
@@ -544,6 +566,22 @@ def extract_fn(gen, f, probe=False):
     for text, t in ins:
       body.insert(p, text, t)
       p += len(text)
+    if kw == "for" and (spec.get("ghost_iter") or spec.get("iter_sub")):
+      st = sites[ordn][0]
+      hdr = body.s[st:brace]
+      m = re.match(r"for\s+(.+?)\s+in\s+(.+?)(\s*)$", hdr, re.S)
+      if not m:
+        raise VxError("for-loop #%d header of %s::%s not understood: %r" % (ordn, f.file, f.name, hdr))
+      expr = m.group(2)
+      if spec.get("iter_sub"):
+        old_e, new_e = spec["iter_sub"]
+        if expr.strip() != old_e:
+          raise VxError("for-loop #%d of %s::%s iterates %r, expected %r: anchor lost" % (ordn, f.file, f.name, expr, old_e))
+        gen.drops.append({"rule": "R8", "at": "%s:%s" % (where, body.o[st]), "what": "for .. in %s -> for .. in %s (same element sequence, see trusted base)" % (old_e, new_e)})
+        expr = new_e
+      gi = spec.get("ghost_iter")
+      newhdr = "for %s in %s%s%s" % (m.group(1), (gi + ": ") if gi else "", expr, m.group(3))
+      body.replace(st, brace, newhdr, body.o[st])
   # ---- hints
   for h in f.hints:
     name, anchor, occ, side, text = h
@@ -631,8 +669,8 @@ def generate(unit, probe=False):
       gen.emit_raw("// ---- extracted %s %s from %s" % (part.kind, part.name, part.file), "vx")
       gen.emit_otext(ot, part.file)
     elif isinstance(part, Fn):
-      ot, _ = extract_fn(gen, part, probe and part.probe)
-      gen.emit_raw("// ---- extracted fn %s from %s" % (part.name, part.file), "vx")
+      ot, qual = extract_fn(gen, part, probe and part.probe)
+      gen.emit_raw("// ---- extracted fn %s from %s" % (qual, part.file), "vx")
       if part.emit_impl:
         gen.emit_raw(part.emit_impl + " {", "vx")
       gen.emit_otext(ot, part.file)
